@@ -3,7 +3,7 @@
   (disjoint keyspaces, clipping of foreign regions), region keys, and the command catalogue.
   All theorems are about `Model/ApiV2.lean`; the tie to /repo is the differential + the regenerated catalogue.
 -/
-import ClientGoVerif.Proofs.ApiV2
+import ClientGoVerif.Proofs.ApiV2Store
 import ClientGoVerif.Generated.CodecCatalogue
 namespace CGV.Props.C15
 open CGV CGV.Codec CGV.ApiV2 CGV.ApiV2.Lemmas CGV.ApiV2.Cat
@@ -360,11 +360,226 @@ theorem region_key_roundtrip (ks : Keyspace) (hv : ks.valid = true) (k s e : Byt
       simp only [encodeKey] at h1 h2 h3 hpre hdrop
       simp [decodeRange, h1, h2, h3, hpre, hdrop, isPrefix_append, encodeKey]
 
-/-- NOT PROVED (full statement kept per convention): region keys preserve the logical order, i.e. the memcomparable
-    encoding is monotone — this is C19's `encodeBytes` order theorem composed with `encode_order_iso`; here it is only
-    validated by the `ord` property op on both sides. -/
-def region_key_order_iso : Prop :=
-  ∀ (ks : Keyspace) (a b : Bytes), Bytes.cmp (encodeRegionKey ks a) (encodeRegionKey ks b) = Bytes.cmp a b
+/-! ## region keys: order, ranges, the keyspace end as the next keyspace's prefix -/
+
+/-- region keys (memcomparable(prefix ++ key)) preserve the logical order, three-way, for every keyspace -/
+theorem region_key_order_iso (ks : Keyspace) (a b : Bytes) :
+    Bytes.cmp (encodeRegionKey ks a) (encodeRegionKey ks b) = Bytes.cmp a b := by
+  simp only [encodeRegionKey, encodeBytes_cmp, encodeKey]
+  exact cmp_append_left ks.pfx a b
+
+/-- `k1 < k2 ↔ encodeRegionKey k1 < encodeRegionKey k2` (and the same for `≤`) -/
+theorem region_key_lt_iff (ks : Keyspace) (a b : Bytes) :
+    (Bytes.lt (encodeRegionKey ks a) (encodeRegionKey ks b) = true ↔ Bytes.lt a b = true) ∧
+    (Bytes.le (encodeRegionKey ks a) (encodeRegionKey ks b) = true ↔ Bytes.le a b = true) := by
+  simp [Bytes.lt, Bytes.le, region_key_order_iso]
+
+/-- logical range (empty end = unbounded) ↔ plain interval of region keys, towards PD; the unbounded end becomes
+    the region key of the keyspace end -/
+theorem region_range_iso (ks : Keyspace) (hv : ks.valid = true) (k s e : Bytes) :
+    inInterval (encodeRegionKey ks k) (encodeRegionRange ks s e).1 (encodeRegionRange ks s e).2 = inRange k s e := by
+  have h := encode_order_iso_range ks hv k s e
+  rw [← h]
+  simp only [encodeRegionRange, encodeRange, encodeRegionKey, inInterval, Bytes.le, Bytes.lt, encodeBytes_cmp,
+    Bool.false_eq_true, if_false]
+
+/-- containment the other way: a (well-formed) key whose region key lies inside the encoded region range is a key
+    of this keyspace inside the logical range -/
+theorem region_range_within_keyspace (ks : Keyspace) (hv : ks.valid = true) (y s e : Bytes)
+    (hy : Gen.keyspacePrefixLen ≤ y.length)
+    (h : inInterval (encodeBytes y) (encodeRegionRange ks s e).1 (encodeRegionRange ks s e).2 = true) :
+    ∃ k, y = encodeKey ks k ∧ inRange k s e = true := by
+  apply encode_range_within_keyspace ks hv y s e hy
+  rw [← h]
+  simp only [encodeRegionRange, encodeRange, inInterval, Bytes.le, Bytes.lt, encodeBytes_cmp, Bool.false_eq_true,
+    if_false]
+
+/-- the end of a keyspace IS the prefix of the next keyspace id (same mode): an unbounded logical end is sent as
+    the next keyspace's first possible key, plain and in region form -/
+theorem keyspace_end_is_next_prefix (ks : Keyspace) (h : ks.id < Gen.maxKeyspaceID) (s : Bytes) :
+    ks.endKey = (Keyspace.mk ks.mode (ks.id + 1)).pfx ∧
+    (encodeRange ks s [] false).2 = encodeKey (Keyspace.mk ks.mode (ks.id + 1)) [] ∧
+    (encodeRegionRange ks s []).2 = encodeRegionKey (Keyspace.mk ks.mode (ks.id + 1)) [] := by
+  have h1 := endKey_eq_next_pfx ks h
+  refine ⟨h1, ?_, ?_⟩
+  · simp [encodeRange, encodeRangeFwd, encodeKey, h1]
+  · simp [encodeRegionRange, encodeRangeFwd, encodeRegionKey, encodeKey, h1]
+
+example : (⟨.txn, 255⟩ : Keyspace).id < Gen.maxKeyspaceID := by decide
+
+/-- the last keyspace id: its end is the first byte string of the next mode byte, which no keyspace of either
+    mode contains (covered by `keyspaces_disjoint`); here: it is not a key of the keyspace and above all of them -/
+theorem keyspace_end_above_all_keys (ks : Keyspace) (hv : ks.valid = true) (k : Bytes) :
+    Bytes.lt (encodeKey ks k) ks.endKey = true ∧ Bytes.lt (encodeRegionKey ks k) (encodeBytes ks.endKey) = true ∧
+    Bytes.isPrefix ks.pfx ks.endKey = false := by
+  refine ⟨?_, ?_, not_prefix_end ks hv⟩
+  · simp [Bytes.lt, encodeKey, enc_lt_end ks hv k]
+  · simp [Bytes.lt, encodeRegionKey, encodeBytes_cmp, encodeKey, enc_lt_end ks hv k]
+
+/-- region-key intervals of different keyspaces are disjoint as well (what PD's region tree sees) -/
+theorem region_keyspaces_disjoint (a b : Keyspace) (ha : a.valid = true) (hb : b.valid = true) (hne : a ≠ b) (x : Bytes) :
+    ¬ (inInterval x (encodeBytes a.pfx) (encodeBytes a.endKey) = true ∧
+       inInterval x (encodeBytes b.pfx) (encodeBytes b.endKey) = true) := by
+  have sep : ∀ (p q : Keyspace), p.valid = true → p.pfxVal < q.pfxVal →
+      ¬ (inInterval x (encodeBytes p.pfx) (encodeBytes p.endKey) = true ∧
+         inInterval x (encodeBytes q.pfx) (encodeBytes q.endKey) = true) := by
+    intro p q hp hlt ⟨h1, h2⟩
+    simp only [inInterval, Bool.and_eq_true, Bytes.le, Bytes.lt, bne_iff_ne, beq_iff_eq] at h1 h2
+    have hle : Bytes.cmp (encodeBytes p.endKey) (encodeBytes q.pfx) ≠ .gt := by
+      rw [encodeBytes_cmp]; exact end_le_pfx_of_lt hp hlt
+    have h3 : Bytes.cmp x (encodeBytes q.pfx) = .lt := cmp_lt_of_lt_of_le h1.2 hle
+    have h4 := h2.1
+    rw [cmp_swap x (encodeBytes q.pfx), h3] at h4
+    simp [Ordering.swap] at h4
+  have hvne : a.pfxVal ≠ b.pfxVal := fun h => hne (pfxVal_inj ha hb h)
+  rcases Nat.lt_or_gt_of_ne hvne with hlt | hgt
+  · exact sep a b ha hlt
+  · intro h; exact sep b a hb hgt ⟨h.2, h.1⟩
+
+/-! ## range mapping at full strength -/
+
+/-- among well-formed keys, `[prefix, endKey)` is EXACTLY the keyspace: nothing foreign inside, nothing own outside -/
+theorem keyspace_interval_exact (ks : Keyspace) (hv : ks.valid = true) (x : Bytes) (hx : Gen.keyspacePrefixLen ≤ x.length) :
+    inInterval x ks.pfx ks.endKey = true ↔ ∃ k, x = encodeKey ks k := by
+  rw [Lemmas.keyspace_interval_exact ks hv x hx]
+  constructor
+  · intro hp; exact ⟨_, isPrefix_eq_append hp⟩
+  · rintro ⟨k, rfl⟩; exact isPrefix_append _ _
+
+/-- `encodeRange` with an empty end: the encoded end is the keyspace end, forward and (empty start) reverse, and the
+    resulting interval is the whole rest of the keyspace from `s` on — no key of the keyspace ≥ s is missed -/
+theorem encode_range_empty_end (ks : Keyspace) (hv : ks.valid = true) (s : Bytes) :
+    (encodeRange ks s [] false).2 = ks.endKey ∧ (encodeRange ks [] s true).1 = ks.endKey ∧
+    (∀ k, inInterval (encodeKey ks k) (encodeRange ks s [] false).1 (encodeRange ks s [] false).2 = Bytes.le s k) := by
+  refine ⟨rfl, rfl, ?_⟩
+  intro k
+  rw [encode_order_iso_range ks hv k s []]
+  simp [inRange]
+
+/-- what `decodeRange` returns when it accepts, bound by bound: a region start at or before the keyspace start is
+    clamped to "from the beginning" (`[]`), one inside is stripped; a region end that is unbounded or at/after the
+    keyspace end is clamped to "unbounded" (`[]`), one inside is stripped (and is never empty) -/
+theorem decode_range_clamps (ks : Keyspace) (hv : ks.valid = true) (rs re s e : Bytes)
+    (h : decodeRange ks rs re = .ok (s, e)) :
+    (Bytes.le rs ks.pfx = true → s = []) ∧
+    (Bytes.lt ks.pfx rs = true → Gen.keyspacePrefixLen ≤ rs.length → rs = encodeKey ks s ∧ s ≠ []) ∧
+    ((re = [] ∨ Bytes.le ks.endKey re = true) → e = []) ∧
+    (Bytes.lt re ks.endKey = true → Gen.keyspacePrefixLen ≤ re.length → re ≠ [] → re = encodeKey ks e ∧ e ≠ []) := by
+  unfold decodeRange at h
+  split at h
+  · cases h
+  · rename_i hc
+    simp only [Bool.or_eq_true, bne_iff_ne, Bool.and_eq_true, Bool.not_eq_true', ne_eq, not_or, Decidable.not_not,
+      not_and] at hc
+    obtain ⟨hltE, hre⟩ := hc
+    simp only [Except.ok.injEq, Prod.mk.injEq] at h
+    obtain ⟨hs, he⟩ := h
+    refine ⟨?_, ?_, ?_, ?_⟩
+    · intro hle
+      cases hp : Bytes.isPrefix ks.pfx rs with
+      | false => simpa [hp] using hs.symm
+      | true =>
+        have hx := isPrefix_eq_append hp
+        simp only [hp, if_true] at hs
+        -- rs = pfx ++ s and rs ≤ pfx force s = []
+        rw [hx] at hle
+        have := cmp_append_left ks.pfx (rs.drop ks.pfx.length) []
+        simp only [List.append_nil] at this
+        simp only [Bytes.le, this, bne_iff_ne] at hle
+        rw [← hs]
+        cases hd : rs.drop ks.pfx.length with
+        | nil => rfl
+        | cons c cs => rw [hd] at hle; simp [Bytes.cmp] at hle
+    · intro hlt hlen
+      have hp : Bytes.isPrefix ks.pfx rs = true := by
+        cases hp : Bytes.isPrefix ks.pfx rs with
+        | true => rfl
+        | false =>
+          exfalso
+          have := long_lt_pfx ks hv hlen hltE hp
+          simp only [Bytes.lt, beq_iff_eq] at hlt
+          rw [cmp_swap rs ks.pfx, this] at hlt
+          simp [Ordering.swap] at hlt
+      have hx := isPrefix_eq_append hp
+      simp only [hp, if_true] at hs
+      refine ⟨by rw [← hs]; exact hx, ?_⟩
+      intro hnil
+      rw [← hs] at hnil
+      rw [hnil, List.append_nil] at hx
+      simp only [Bytes.lt, beq_iff_eq] at hlt
+      rw [hx, cmp_refl] at hlt
+      cases hlt
+    · intro hcase
+      cases hp : Bytes.isPrefix ks.pfx re with
+      | false => simpa [hp] using he.symm
+      | true =>
+        exfalso
+        have hx := isPrefix_eq_append hp
+        rcases hcase with h0 | hge
+        · subst h0
+          have := Cat.isPrefix_nil_false ks
+          rw [this] at hp; cases hp
+        · have hlt := enc_lt_end ks hv (re.drop ks.pfx.length)
+          rw [← hx] at hlt
+          simp only [Bytes.le, bne_iff_ne] at hge
+          rw [cmp_swap re ks.endKey, hlt] at hge
+          simp [Ordering.swap] at hge
+    · intro hlt hlen hne
+      have hne' : re.isEmpty = false := Cat.isEmpty_false_of_ne hne
+      have hgt := hre hne'
+      have hp : Bytes.isPrefix ks.pfx re = true := by
+        cases hp : Bytes.isPrefix ks.pfx re with
+        | true => rfl
+        | false =>
+          exfalso
+          simp only [Bytes.lt, beq_iff_eq] at hlt
+          have := long_lt_pfx ks hv hlen hlt hp
+          rw [this] at hgt
+          cases hgt
+      have hx := isPrefix_eq_append hp
+      simp only [hp, if_true] at he
+      refine ⟨by rw [← he]; exact hx, ?_⟩
+      intro hnil
+      rw [← he] at hnil
+      rw [hnil, List.append_nil] at hx
+      rw [hx, cmp_refl] at hgt
+      cases hgt
+
+example : decodeRange ⟨.txn, 7⟩ [120, 0, 0, 6, 9] [120, 0, 0, 7, 5] = .ok ([], [5]) := by rfl
+
+/-- the same clipping one level up, for regions as PD / TiKV report them (memcomparable bounds, empty = unbounded):
+    `DecodeRegionRange` accepts / rejects like `DecodeRange` on the decoded bounds and, when it accepts, the decoded
+    logical range is exactly the set of keys of this keyspace whose REGION KEY lies in the reported region -/
+theorem decode_region_range_clips (ks : Keyspace) (hv : ks.valid = true) (rs re : Bytes)
+    (hrs : rs = [] ∨ Gen.keyspacePrefixLen ≤ rs.length) :
+    decodeRegionRange ks (encRegionBound rs) (encRegionBound re) = decodeRange ks rs re ∧
+    (decodeRegionRange ks (encRegionBound rs) (encRegionBound re) = .error .outOfBound →
+        ∀ k, inRegion (encodeRegionKey ks k) (encRegionBound rs) (encRegionBound re) = false) ∧
+    (∀ s e, decodeRegionRange ks (encRegionBound rs) (encRegionBound re) = .ok (s, e) →
+        ∀ k, inRange k s e = inRegion (encodeRegionKey ks k) (encRegionBound rs) (encRegionBound re)) := by
+  have hc := Cat.decodeRegionRange_canonical ks rs re
+  obtain ⟨_, h2, h3, _⟩ := decode_range_clips ks hv rs re hrs
+  refine ⟨hc, ?_, ?_⟩
+  · intro herr k
+    rw [hc] at herr
+    simpa [encodeRegionKey, Cat.inRegion_canonical] using h2 herr k
+  · intro s e hok k
+    rw [hc] at hok
+    simpa [encodeRegionKey, Cat.inRegion_canonical] using h3 s e hok k
+
+/-- the unrestricted form of `decode_range_clips` (no hypothesis on the region start) — FALSE, see below -/
+def decode_range_clips_full : Prop :=
+  ∀ (ks : Keyspace), ks.valid = true → ∀ rs re s e, decodeRange ks rs re = .ok (s, e) →
+    ∀ k, inRange k s e = inRegion (encodeKey ks k) rs re
+
+/-- the hypothesis of `decode_range_clips` cannot be dropped: the model (and, by the `decrange` differential, the Go
+    code) accepts the region `[x 00 01, +∞)` for keyspace 255 and decodes it to the whole keyspace although the
+    region contains none of its keys.  Such a start is shorter than `keyspacePrefixLen`, i.e. not an API-v2 key. -/
+theorem decode_range_clips_full_refuted : ¬ decode_range_clips_full := by
+  intro h
+  have := h ⟨.txn, 255⟩ (by decide) [120, 0, 1] [] [] [] (by rfl) [5]
+  revert this
+  decide
 
 /-- non-vacuity of the `valid` hypothesis used throughout (largest id, both modes) -/
 example : (⟨.raw, 16777215⟩ : Keyspace).valid = true ∧ (⟨.txn, 0⟩ : Keyspace).valid = true := by decide
